@@ -141,4 +141,49 @@ theorem early_rename_rejected :
       .write 1 2, .close 1] = false := by
   decide
 
+/-! ### two-run histories -/
+
+/-- **Leftovers do not matter.**  A run that never looks at a temporary before it has removed or
+truncated it (`freshFrom`, decidable, evaluated on the recorded traces of re-runs) leaves every
+non-temporary path exactly as if the leftover temporaries of an earlier, failed run had not been
+there. -/
+theorem leftover_independent (r : Roles) (fs0 : FS) (tr : List Op)
+    (hf : freshFrom r.temps (absentTemps r fs0) tr = true) (p : Path) (hp : p ∉ r.temps) :
+    get (run fs0 tr) p = get (run (eraseTemps r fs0) tr) p :=
+  run_agree r.temps tr _ fs0 (eraseTemps r fs0) hf (agree_eraseTemps r fs0) p
+    (Or.inl (by simpa using hp))
+
+/-- **Two runs.**  Run 1 (`tr1`) fails at operation `k`; its end state is the initial file system
+of run 2 (`tr2`, any trace that conforms from there), which crashes at `j`.  Every output path is
+then untouched, absent, or the complete closed result of run 1 or of run 2. -/
+theorem two_run_safe (r : Roles) (fs0 : FS) (tr1 tr2 : List Op) (k j : Nat)
+    (hc1 : Conforms r fs0 tr1 = true) (hc2 : Conforms r (fail fs0 tr1 k) tr2 = true)
+    (o : Path) (ho : o ∈ r.outs) (hq : quiet (get fs0 o) = true) :
+    let v := get (crash (fail fs0 tr1 k) tr2 j) o
+    v = get fs0 o ∨ v = none ∨
+      (∃ f, v = some f ∧ f.openW = false ∧
+        (v = get (run fs0 tr1) o ∨ v = get (run (fail fs0 tr1 k) tr2) o)) := by
+  intro v
+  have h1 := fail_safe r fs0 tr1 hc1 o ho hq k
+  have hq1 : quiet (get (fail fs0 tr1 k) o) = true := by
+    rcases h1 with h | h | ⟨_, f, hf, hcl⟩
+    · rw [h]; exact hq
+    · rw [h]; rfl
+    · rw [hf]; simp [quiet, hcl]
+  rcases crash_safe r (fail fs0 tr1 k) tr2 hc2 o ho hq1 j with h | h | ⟨h2, f, hf, hcl⟩
+  · rcases h1 with h' | h' | ⟨h1', f, hf, hcl⟩
+    · left; exact h.trans h'
+    · right; left; exact h.trans h'
+    · right; right; exact ⟨f, h.trans hf, hcl, Or.inl (h.trans h1')⟩
+  · right; left; exact h
+  · right; right; exact ⟨f, hf, hcl, Or.inr h2⟩
+
+/-- a re-run that inspects a leftover temporary before resetting it is not fresh -/
+theorem resume_rejected :
+    freshFrom [2] (absentTemps rolesEx [(0, ⟨[100], false⟩), (2, ⟨[1], false⟩)])
+      [.openRead 0, .openRead 2, .close 2, .openAppend 2, .write 2 5, .close 2, .rename 2 1] = false ∧
+    freshFrom [2] (absentTemps rolesEx [(0, ⟨[100], false⟩), (2, ⟨[1], false⟩)])
+      [.unlink 2, .openAppend 2, .write 2 5, .close 2, .rename 2 1] = true := by
+  decide
+
 end DclabModel.C10
